@@ -147,8 +147,29 @@ def fns():
         v = yield t1, t2, t3, t4
         return v
 
+    @A()
+    def dd_redirty(x):
+        """Every thread keeps invalidating the key while the others have a call with the same arguments in flight:
+        dirty() is scoped to the calling thread like the registrations themselves."""
+        import time
+
+        st = _state["tls"].cur
+        out = []
+        for rep in range(3):
+            dd.dirty(x)
+            t1 = dd.asynq(x)
+            time.sleep(0)
+            yield harness.HItem(st["rt"], 0, "ddw%d" % rep, ("ddw", x, rep))
+            time.sleep(0)
+            t2 = dd.asynq(x=x)
+            if t2 is not t1:
+                st["dd_split"] += 1
+            out.append((yield t1, t2))
+        return out
+
     _state["dd"] = dd
     _state["dd_round"] = dd_round
+    _state["dd_redirty"] = dd_redirty
     _state["tls"] = threading.local()
     return _state
 
@@ -258,7 +279,7 @@ def loop(tid, nthreads, rounds, seed, perf, out, barrier=None):
                 viol.append(("asyncio-mode-left-on-after-asyncio-run", {"thread": tid}))
             digest.append(("asyncio", repr(ao), tl.digest(rt.log)))
         # deduplicate: same function, same arguments in every thread
-        st = {"dd_exec": [], "ddk_exec": [], "ddh_exec": [], "rt": None, "dd_tasks": None}
+        st = {"dd_exec": [], "ddk_exec": [], "ddh_exec": [], "rt": None, "dd_tasks": None, "dd_split": 0}
         F["tls"].cur = st
         rt = harness.HarnessRT({"nodes": [], "kinds": 1}, prio=PRIO)
         rt.label = "T%d" % tid
@@ -284,6 +305,25 @@ def loop(tid, nthreads, rounds, seed, perf, out, barrier=None):
                 if o[0] != tid:
                     viol.append(("deduplicated-task-shared-between-threads", {"thread": tid, "owner": o[0]}))
         digest.append(("dd", repr(v)[:60].replace(str(me), "ME")))
+        # the key is invalidated by every thread again and again while the others have it in flight
+        st["dd_exec"] = []
+        st["dd_split"] = 0
+        S.reset()
+        rt.attach()
+        try:
+            v = F["dd_redirty"](7)
+        except BaseException as e:
+            v = ("exc", exc_desc(e))
+        finally:
+            rt.detach()
+        if st["dd_split"] or st["dd_exec"] != [me] * 3 or v != [(("dd", 7, me), ("dd", 7, me))] * 3:
+            viol.append(
+                (
+                    "in-flight-deduplicated-call-forgotten-without-own-dirty",
+                    {"thread": tid, "second_call_got_a_different_task": st["dd_split"], "executions_in_this_thread": len(st["dd_exec"]), "expected_executions": 3, "value": repr(v)[:200]},
+                )
+            )
+        digest.append(("ddr", repr(v).replace(str(me), "ME")[:80]))
         # hand-off of a deduplicated task: built here, computed by the previous thread; afterwards the key is free
         # again on the thread that built it
         st["ddh_exec"] = []
@@ -414,6 +454,7 @@ def run_unit(unit, progress):
         for r, rec in enumerate(conc[tid]):
             res["evaluations"] += 1
             c["rounds"] = c.get("rounds", 0) + 1
+            c["dirty_calls_racing_with_other_threads_in_flight_calls"] = c.get("dirty_calls_racing_with_other_threads_in_flight_calls", 0) + 3
             sigs.add(rec["sig"])
             if rec["switched"]:
                 c["rounds_interleaved_with_other_threads"] = c.get("rounds_interleaved_with_other_threads", 0) + 1
@@ -422,7 +463,7 @@ def run_unit(unit, progress):
             if r < len(solo[tid]) and rec["digest"] != solo[tid][r]["digest"]:
                 a, b = rec["digest"], solo[tid][r]["digest"]
                 k = next((j for j in range(min(len(a), len(b))) if a[j] != b[j]), min(len(a), len(b)))
-                what = a[k][0] if k < len(a) and a[k][0] in ("handoff", "asyncio", "dd", "ddh", "profiler") else "program %d" % k
+                what = a[k][0] if k < len(a) and a[k][0] in ("handoff", "asyncio", "dd", "ddr", "ddh", "profiler") else "program %d" % k
                 viol.append(("digest-differs-from-solo-run", {"thread": tid, "round": r, "part": what, "concurrent": repr(a[k] if k < len(a) else None)[:120], "alone": repr(b[k] if k < len(b) else None)[:120]}))
             for v in viol[:2]:
                 if len(res["violations"]) < 8:
